@@ -836,6 +836,21 @@ pub fn c12() -> Result<u64, String> {
             }
         }
     }
+    // headers with one byte changed (magic, version, enum codes, flags): the sync and the async reader agree on accept / reject
+    {
+        let tiles = gen_tiles(&mut r, 3, 2);
+        let (b, _) = write_at(build(&tiles, Compression::GZip, &Default::default()), 0).map_err(|e| e.to_string())?;
+        for pos in [0usize, 3, 6, 7, 96, 97, 98, 99] { for v in [0u8, 1, 2, 3, 4, 5, 6, 77, 255] { n += 1;
+            let mut hb = b[..127].to_vec(); hb[pos] = v;
+            let s = Header::from_reader(&mut Cursor::new(hb.clone())).is_ok();
+            let a = block_on(Header::from_async_reader(&mut futures::io::Cursor::new(hb.clone()))).is_ok();
+            if s != a { return Err(format!("header with byte {pos} set to {v}: sync reader {}, async reader {}", if s { "accepts" } else { "rejects" }, if a { "accepts" } else { "rejects" })); }
+            let mut ab = b.clone(); ab[pos] = v;
+            let s2 = PMTiles::from_bytes(ab.clone()).is_ok();
+            let a2 = block_on(PMTiles::from_async_reader(futures::io::Cursor::new(ab))).is_ok();
+            if s2 != a2 { return Err(format!("archive with header byte {pos} set to {v}: sync open {}, async open {}", if s2 { "succeeds" } else { "fails" }, if a2 { "succeeds" } else { "fails" })); }
+        } }
+    }
     // foreign archives with nested leaf directories (tile leaves down to depth 3): sync and async readers agree
     for round in 0..24 { n += 1;
         let tiles = gen_tiles(&mut r, [9, 25, 60][round % 3], 1 + (round % 5) as u64);
